@@ -98,6 +98,14 @@ def run(rep, tier, driver):
             qs = [["count", root, {"match_all_fg": True, "match_root": True}], ["count", g, {"match_all_fg": True, "match_nodes": True}],
                   ["count", root, {"match_some_fg": True, "match_nodes": True}], ["tree"]]
             histories.append([{"fn": "glycan", "iupac": g, "opts": opts, "methods": qs + [["get_smiles"]] + qs + [["summary"], ["save_dot"]] + qs + [["get_smiles"]]}])
+    # the same input under different options in one interpreter (a result remembered under one option value must not be handed out
+    # under another): partially convertible glycans with full=False then full=True, and the reverse
+    for g in ["Glc9S", "Man(a1-4)Glc7S", "Gal(b1-4)Glc6Leu", "Glc3Alloc", "Glc2en", "Glc3Leu", "Man(a1-4)Glc2en", "Glc(a1-?)Glc", "Glc"]:
+        for first in (False, True):
+            a, b = {"full": first}, {"full": not first}
+            histories.append([dict({"fn": "convert", "glycan_list": [g, "Gal"]}, **a), dict({"fn": "convert", "glycan_list": ["Gal", g]}, **b),
+                              dict({"fn": "convert_generator", "glycan_list": [g]}, **b), dict({"fn": "convert", "glycan": g}, **a),
+                              {"fn": "glycan", "iupac": g, "opts": b, "methods": [["get_smiles"]]}, dict({"fn": "convert_generator", "glycan_list": [g, g]}, **a)])
     rep.rule = ("random call histories (convert, convert_generator incl. abandoned generators, Glycan construction + get_smiles/summary/count/"
                 "save_dot/get_tree in random order; good and failing inputs; verbose=None, file/stdout sinks, missing file) executed in one fresh "
                 "interpreter, and every call of every history executed alone in its own fresh interpreter; Spec: identical result, root logger "
